@@ -48,7 +48,7 @@ def cond_api_confirm(vh):
     def confirm(case):
         k = case["key"]
         rows = [dict(present=True, **k["rows"]["u%d" % (i + 1)]) for i in range(len(k["rows"]))]
-        r = _run(vh, [{"t": "replay", "rows": rows, "conds": k["conds"]}], k["group"])
+        r = _run(vh, [{"t": "replay", "rows": rows, "conds": k["caseConds"]}], k["group"])
         got = [c["mismatch"] for c in r["cases"] if c["key"] == k and c["mismatch"]["what"] == case["mismatch"]["what"]]
         return got, None
     return confirm
